@@ -124,7 +124,11 @@ func c16Scenario(r *rand.Rand, caseN int) (string, map[string]interface{}) {
 		reqFn[p] = w.requester(p)
 		w.announced[p] = map[int][]time.Duration{}
 	}
-	step := func(s string) { w.mu.Lock(); w.steps = append(w.steps, fmt.Sprintf("%4dms %s", w.now().Milliseconds(), s)); w.mu.Unlock() }
+	step := func(s string) {
+		w.mu.Lock()
+		w.steps = append(w.steps, fmt.Sprintf("%4dms %s", w.now().Milliseconds(), s))
+		w.mu.Unlock()
+	}
 	announce := func(p string, ids ...int) {
 		w.mu.Lock()
 		t := w.now()
